@@ -305,6 +305,9 @@ class CFG:
         return best
 
 
+KILL = object()  # returned by an edge function to drop the edge
+
+
 def typestate(
     cfg: CFG,
     init: Iterable,
@@ -315,7 +318,7 @@ def typestate(
     """Generic forward propagation of finite states.
 
     node_fn(node, state) -> iterable of states after executing the node (may record violations
-    through closures); edge_fn(node, label, state) -> state (or None to kill the edge).
+    through closures); edge_fn(node, label, state) -> state (or KILL to drop the edge; None is an ordinary state).
     Returns (states_at_node_entry: dict[node_id, set], exit_states: set, trace_parent) where
     trace_parent maps (node_id, state) -> predecessor (node_id, state) for witness paths.
     """
@@ -339,7 +342,7 @@ def typestate(
         for s2 in node_fn(n, s):
             for m, lab in n.succ:
                 s3 = edge_fn(n, lab, s2) if edge_fn else s2
-                if s3 is None:
+                if s3 is KILL:
                     continue
                 if s3 not in at[m.id]:
                     at[m.id].add(s3)
